@@ -66,8 +66,10 @@ def build_state(spec):
             c = np.zeros((1, 2, 1, 1), dtype=complex)
             c[0, bits[i], 0, 0] = np.exp(1j * g.uniform(0, 2 * np.pi))
             cores.append(c)
-    elif kind == "ghz":        # a|0..0> + b|1..1>
+    elif kind in ("ghz", "ghz_eq"):        # a|0..0> + b|1..1>   (ghz_eq: a = b, i.e. amplitudes exactly +-1/sqrt(2))
         a, b = g.standard_normal(2) + 1j * g.standard_normal(2)
+        if kind == "ghz_eq":
+            a, b = 1.0, g.choice([1.0, -1.0])
         cores = []
         for i in range(n):
             rl = 1 if i == 0 else 2
@@ -247,6 +249,13 @@ class Run(object):
                 new = q.conj().T.reshape(r0, m, n_, r1)
             else:
                 return "skip"
+        elif rec.get("how") == "clifford":
+            # Hadamard / Pauli gates on structured states (GHZ with equal weights, basis states) produce amplitudes that
+            # cancel EXACTLY: left environments whose entries sum to zero, conditional probabilities of exactly 1/2
+            h = np.array([[1.0, 1.0], [1.0, -1.0]]) / np.sqrt(2.0)
+            u = {"H": h, "X": np.array([[0.0, 1.0], [1.0, 0.0]]), "Z": np.diag([1.0, -1.0]),
+                 "HZ": h.dot(np.diag([1.0, -1.0]))}[rec.get("gate", "H")].astype(complex)
+            new = np.einsum("ab,rbcs->racs", u, old)
         else:
             z = g.standard_normal((2, 2)) + 1j * g.standard_normal((2, 2))
             q, r = np.linalg.qr(z)
@@ -377,7 +386,7 @@ class Run(object):
         return "ok"
 
 
-KINDS = ("random", "random", "random", "product", "mixed_product", "basis", "ghz", "w")
+KINDS = ("random", "random", "random", "product", "mixed_product", "basis", "ghz", "ghz_eq", "w")
 
 
 def swarm_config(seed):
@@ -389,7 +398,7 @@ def swarm_config(seed):
         "max_rank": rnd.choice((1, 2, 3, 4, 6) if deep else (1, 2, 3, 4)),
         "length": rnd.choice((1, 2, 3, 5)),
         "big_p": rnd.choice((0.0, 0.05, 0.2)),
-        "kinds": rnd.choice((KINDS, ("random",), ("ghz", "w", "basis"), ("product", "mixed_product", "random"))),
+        "kinds": rnd.choice((KINDS, ("random",), ("ghz", "ghz_eq", "w", "basis"), ("ghz_eq", "basis"), ("product", "mixed_product", "random"))),
     }
 
 
@@ -409,6 +418,12 @@ def generate_and_run(seed, keep_events=False):
         records.append(rec)
         run.step(rec)
         prev_measure = None
+        if kind in ("ghz_eq", "basis") and rnd.random() < 0.6:
+            for _ in range(rnd.randint(1, 2)):
+                rec = {"op": "gate", "site": rnd.randrange(n), "seed": rnd.getrandbits(32), "how": "clifford",
+                       "gate": rnd.choice(("H", "H", "X", "Z", "HZ"))}
+                records.append(rec)
+                run.step(rec)
         for _ in range(cfg["length"]):
             k = rnd.randint(1, n)
             measure = sorted(rnd.sample(range(n), k))
@@ -428,7 +443,9 @@ def generate_and_run(seed, keep_events=False):
             records.append(rec)
             run.step(rec)
             if rnd.random() < 0.3:
-                rec = {"op": "gate", "site": rnd.randrange(n), "seed": rnd.getrandbits(32), "how": rnd.choice(("unitary", "replace"))}
+                rec = {"op": "gate", "site": rnd.randrange(n), "seed": rnd.getrandbits(32),
+                       "how": rnd.choice(("unitary", "replace", "clifford", "clifford") if kind in ("ghz_eq", "basis", "ghz") else ("unitary", "replace")),
+                       "gate": rnd.choice(("H", "H", "X", "Z", "HZ"))}
                 records.append(rec)
                 run.step(rec)
     except Violation as v:
